@@ -412,10 +412,18 @@ def r17_3(run):
         return any(x[0] == "call" and x[1] == ("x", "builtins.issubclass") and len(x[2]) == 2 and x[2][1][0] == "f"
                    and x[2][1][1].endswith("." + clsname) for x in walk(it))
     br_ok = nd_ok = False
+    # entries added per element by several statements of one loop body (ejts.add(..); ejts.add(..)) are one group
+    groups = {}
     for c in ups:
         items, it = forms(c)
         if items is None:
             continue
+        gk = (c.loops, key(it), key(c.fn[1]), tuple((key(c_), p_) for c_, p_ in c.cond)) if c.loops else ("single", id(c))
+        if gk in groups:
+            groups[gk][0].extend(items)
+        else:
+            groups[gk] = (list(items), it, c)
+    for items, it, c in groups.values():
         T, F = ("V", 0), ("V", 1)
         from ..arrnf import norm_cond as _nc
 
